@@ -1,6 +1,6 @@
 """Per-property configuration of ./check (theorem lists, harness commands, evidence texts)."""
 
-GENERATORS = ["gen_ucode.py", "gen_consts.py", "gen_c01.py"]
+GENERATORS = ["gen_ucode.py", "gen_consts.py", "gen_c01.py", "gen_grammar.py"]
 
 TRUSTED_BASE = [
     "Lean 4.33 kernel (re-checkable with leanchecker); axioms limited to propext, Classical.choice, Quot.sound (audited per theorem with #print axioms)",
@@ -210,4 +210,31 @@ prop("C06",
      rule="generated accepted programs (incl. backward .ORG in a fifth, oversize images in a quarter), directed: images of every size 0..300, .ORG to 14 targets from 7 positions, labels referenced in other letter cases through JR/JMP/CALL/JCS/LD/LDSP/DEC/MOV/.EQU, DEC with every operand shape; each is parsed by the real parser, compiled and loaded under catch_unwind, the panic site is classified from the panic message; `compileload` = model prediction, `spec.c06` = must be ok; distinct = distinct serialised ASTs",
      explanation="KNOWN FINDINGS (see known_findings.txt): backward .ORG, image > 240 bytes, image > 255 bytes",
      assumptions=["harness built with overflow checks on (the release binary wraps the address counter silently instead of panicking)"],
+     )
+
+prop("C03",
+     modules=["Emu2a.Props.C03"],
+     theorems=["Emu2a.C03.fromRadix_bound", "Emu2a.C03.validate_spec", "Emu2a.C03.parse_total"],
+     harness="c03",
+     shrink=False,
+     exhaustive={"quick": False, "thorough": False},
+     level_text="PARTIAL. The model of the parser is a PEG interpreter over the grammar REGENERATED from mrasm.pest on every run (tools/gen_grammar.py) plus hand-written AST builders in which every unwrap/expect/unreachable of implementation/mod.rs is an explicit `panic <site>` outcome. Lean theorems: every numeric value a builder returns is below the limit of its type (fromRadix_bound), label validation rejects exactly >40 definitions / a reference without a case-insensitive definition (validate_spec), the parser model is total (parse_total). NOT a theorem: that no token tree of the grammar reaches a panic outcome in a builder, and language equality with a description independent of the grammar file; both are decided only up to the correspondence: real pest parser vs the model on generated programs whose AST is known by construction (spec.parse: the parser must return exactly the AST the text was rendered from), single-token mutations, directed accept/reject boundaries (255/256, 65535/65536, 8/9 binary digits, 40/41 labels, header) and raw byte/Unicode strings under catch_unwind (spec.noparsepanic)",
+     technique="Lean 4 PEG-interpreter model over the grammar translated from mrasm.pest + theorems on number/label validation + differential search against the real pest parser with construction-known ASTs",
+     rule="generated (AST, text) pairs over every instruction form, radix, leading zeros, case and spacing variants (`parse` = real result vs model result, `spec.parse` = real result vs the AST the text was written from), two single-token mutations of each, 30 directed rejects and 8 directed boundary accepts, raw strings over an mrasm-biased and a Unicode alphabet (`spec.noparsepanic`); distinct = distinct texts",
+     explanation="a difference on a `spec.` line is a concrete input on which the real parser returns the wrong program, accepts/rejects wrongly, or panics",
+     assumptions=["pest's PEG semantics is modelled by the interpreter in Model/Peg.lean (ordered choice, greedy repetition, implicit whitespace off, SOI/EOI, case-insensitive literals); tied by the differential runs only"],
+     )
+
+prop("C16",
+     modules=["Emu2a.Props.C16"],
+     theorems=["Emu2a.C16.rt_forms", "Emu2a.C16.hex_roundtrip", "Emu2a.C16.dec_roundtrip_byte", "Emu2a.C16.trim_idem",
+               "Emu2a.C16.comment_roundtrip", "Emu2a.C16.parsed_comment_trimmed", "Emu2a.C16.forms_cover"],
+     harness="c16",
+     shrink=False,
+     exhaustive={"quick": False, "thorough": False},
+     level_text="PARTIAL. Lean theorems over the model parser (PEG interpreter over the grammar regenerated from mrasm.pest + AST builders) and the model formatter (format.rs Display impls, widths from the regenerated constants): rt_forms — parse(format(p)) = p by kernel evaluation for a family of 331 lines covering every instruction form, operand shape, register, label/number operands and extreme values; hex_roundtrip — every byte rendered as 0xHH reads back; dec_roundtrip_byte — every byte in decimal reads back; trim_idem / comment_roundtrip / parsed_comment_trimmed — for ARBITRARY comment text the '; ' prefix the formatter writes is absorbed by the parser's trimming and stored comments are fixed points of it. NOT a theorem: the lift from the family to all programs (compositionality of the PEG interpreter over lines); decided up to the search: format -> parse on the real code for generated accepted programs (spec.roundtrip), and real formatter = model formatter, real parser = model parser on the rendered text",
+     technique="Lean 4 kernel-evaluated round trip over a covering family of instruction forms + proofs for number rendering and comment trimming + differential search format/parse round trip on the real code",
+     rule="generated accepted programs (every instruction form, operand shape, random values, labels of length 1-30 in mixed case, comments over printable ASCII + Unicode with leading/trailing blanks, tabs and semicolons, header comments): `fmt` = real Display output vs model formatter, `spec.roundtrip` = real parse(format(parse(text))) must equal parse(text), `parse` of the rendered text real vs model; distinct = distinct ASTs",
+     explanation="a difference on `spec.roundtrip` is an accepted program whose rendering is rejected or parses to a different program",
+     assumptions=["the family in Props/C16x/Forms.lean is hand-chosen; forms outside it are covered by the search only"],
      )
